@@ -26,6 +26,7 @@ mod c17;
 mod c18;
 mod c19;
 mod c20;
+mod c20macro;
 mod gen;
 mod iv;
 
@@ -52,6 +53,15 @@ fn main() {
     if prop == "C20-child" {
         comp::install_panic_hook();
         c20::child(&args[2..]);
+    }
+    if prop == "C20-macro-ref" {
+        // reference texts for the asn1! comparison: compile_to_string() in an environment in which the compiler finds the same
+        // rustfmt as the proc macro does under `cargo +nightly` (CARGO names the toolchain's cargo)
+        if let Ok(c) = std::env::var("VCHECK_CARGO") {
+            std::env::set_var("CARGO", c);
+        }
+        comp::install_panic_hook();
+        c20macro::reference_child(&args[2..]);
     }
     if prop == "C08-one" {
         comp::install_panic_hook();
@@ -182,6 +192,10 @@ fn main() {
         match c03der::warm() {
             Ok(()) => println!("setup: DER runner workspace ready"),
             Err(e) => println!("setup: DER runner workspace not ready (the DER part of C03 will report inconclusive): {e}"),
+        }
+        match c20macro::warm() {
+            Ok(()) => println!("setup: asn1! expansion workspace ready"),
+            Err(e) => println!("setup: asn1! expansion workspace not ready (the macro part of C20 will report inconclusive): {e}"),
         }
         let mut rep = core::Report::default();
         match c20::cli_binary(&mut rep) {
